@@ -296,6 +296,7 @@ type fnCtx struct {
 	short       string // pkgname.FuncKey
 	headers     map[*ssa.BasicBlock]int
 	hdrList     []*ssa.BasicBlock
+	atCallHit   map[*Clause]bool // at_call clauses whose pattern matched some call site
 	loopEnds    []token.Pos
 	hasExit     bool
 	siteOrd     map[ssa.Instruction]int
@@ -495,6 +496,8 @@ func siteKind(in ssa.Instruction) string {
 		return "convert"
 	case *ssa.MakeSlice:
 		return "makeslice"
+	case *ssa.Send:
+		return "send"
 	}
 	return ""
 }
